@@ -16,8 +16,8 @@ def run(sid):
         r = subprocess.run(['git', '-C', '/repo', 'apply', os.path.join(d, 'patch.diff')], capture_output=True, text=True)
     if r.returncode != 0:
         print(sid, 'patch does not apply to /repo:', r.stderr[-300:])
-        subprocess.run(['git', '-C', '/repo', 'checkout', '--', '.'])
         subprocess.run(['git', '-C', '/repo', 'reset', '-q'])
+        subprocess.run(['git', '-C', '/repo', 'checkout', '--', '.'])
         return
     try:
         def one(p):
